@@ -139,7 +139,7 @@ package cashu
 //@ func AmountSplit
 //@   tags C18 C14
 //@   safety C06 C18
-//@   loop 1 invariant pos >= 0
+//@   loop 1 invariant pos >= 0 && pos <= 64 && amount < pow2(64 - pos)
 
 //@ func (Unit).String
 //@   tags C09 C20
